@@ -15,7 +15,7 @@ pub fn def() -> PropDef {
         run,
         shrink: Shrink::Bytes,
         render: render_bytes,
-        rule: "every header the real parser accepts in U2-ctl, U2-len (24 valid control pairs x every length 0..=65535), U2-addr, U2-sig, U2-byte and the embedded TLV sections (every string over a 5-byte alphabet up to n, structured sequences with every truncation) is rebuilt through the real Builder four ways (raw views; tlvs() as a section; decoded items when well-formed; decoded address value) and compared with the original bytes; non-trivial = accepted; distinct = hash of (control bytes, length, first 64 payload bytes)",
+        rule: "every header the real parser accepts in U2-ctl, U2-len (24 valid control pairs x every length 0..=65535), U2-addr, U2-sig, U2-byte and the embedded TLV sections (every string over a 5-byte alphabet up to n, structured sequences with every truncation) is rebuilt through the real Builder five ways (raw views; tlvs() as a section; decoded items when well-formed; decoded address value; a write_payloads batch as the very first write) and compared with the original bytes; non-trivial = accepted; distinct = hash of (control bytes, length, first 64 payload bytes)",
         assumptions: &["every declared length 0..=65535 is rebuilt for all 24 control pairs in both tiers"],
     }
 }
@@ -89,6 +89,15 @@ fn rebuild_all(acc: &mut Acc, input: &[u8], h: &v2::Header) {
                 .and_then(|b| b.build());
             cmp(acc, "rebuild-from-decoded-items-differs", "… .write_payloads((kind, value) tuples) …", c2);
         }
+    }
+    // (E) a batch as the very first write: the raw views as one write_payloads call, and the decoded items right after
+    //     with_addresses (nothing written one at a time before the batch)
+    let e1 = v2::Builder::new(vc, afp).write_payloads([h.address_bytes(), h.tlv_bytes()]).and_then(|b| b.build());
+    cmp(acc, "rebuild-from-raw-views-differs", "Builder::new(vc, afp).write_payloads([address_bytes(), tlv_bytes()]).build()", e1);
+    if wf && afp >> 4 != 0 {
+        let items: Vec<_> = h.tlvs().take(h.tlv_bytes().len() / 3 + 2).flatten().collect();
+        let e2 = v2::Builder::with_addresses(vc, h.protocol, h.addresses).write_payloads(items).and_then(|b| b.build());
+        cmp(acc, "rebuild-from-decoded-items-differs", "Builder::with_addresses(vc, protocol, addresses).write_payloads(decoded items).build()", e2);
     }
     // (D) from the decoded address value, when a family is specified
     if afp >> 4 != 0 {
